@@ -539,6 +539,62 @@ def sweep_server(ctx):
         shutil.rmtree(wd, ignore_errors=True)
 
 
+def refused_hello_histories(ctx):
+    """Handshake.tla's NoKeyOnReject / ClientAuth are invariants: they hold in every LATER state too.  A client that refused a foreign / re-signed / garbled hello is
+    left to itself for longer than every client-side clock (connect time-out, the 5 s silence limit), is polled all the while, and is then shown further copies with
+    fresh datagram numbers: at no moment does it report connected, hold a key, or put application data on the wire."""
+    gaps = (30, 400) if ctx.quick else (1, 30, 130, 320, 400, 700)
+    sigs = [dict(by="A", over=["a", "na", "ta"]), dict(by="garbled", over=["a", "na", "ta"])]
+    for gap in gaps:
+        for sig in sigs:
+            w = HsWorld(ctx.seed + gap)
+            try:
+                m = dict(t="sh", spub="a", salt="na", token="ta", sig=sig)
+                seen0 = len(w.w.seen_from[CA])
+                bad = []
+
+                def look(where):
+                    cl = w.cl
+                    conn = cl.conn
+                    key = getattr(conn, "session_key_bytes", None) if conn is not None else None
+                    if cl.connected() or key:
+                        bad.append("%s: connected()=%s, status %s, key %s" % (where, cl.connected(), cl.status(), "set" if key else None))
+                first_raw = None
+                for rnd_ in range(3):
+                    try:
+                        if rnd_ == 0 or rnd_ == 2:
+                            first_raw = first_raw or w.bytes_of(m)
+                            raw = first_raw if rnd_ == 0 else w.bytes_of(m)
+                        else:
+                            # the same datagram again under a fresh DATAGRAM number (bytes 8..9, CRC repaired): its message number is the old one
+                            ln = struct.unpack(">H", first_raw[13:15])[0]
+                            body = bytearray(first_raw[:20 + ln])
+                            body[8:10] = struct.pack(">H", (struct.unpack(">H", first_raw[8:10])[0] + 7) % 65535 + 1)
+                            raw = bytes(body) + struct.pack(">L", w.crypto.crc32(bytes(body)))
+                        w.w.clients[1]["sock"].inbox.append(raw)
+                        w.w.tick()
+                    except Exception:
+                        pass
+                    look("after forged hello %d" % (rnd_ + 1))
+                    for t in range(gap):
+                        w.w.tick()
+                        if t % 7 == 0:
+                            look("%d ticks after forged hello %d" % (t, rnd_ + 1))
+                    try:
+                        w.cl.send(b"application data that must not leave in clear")
+                    except Exception:
+                        pass
+                    w.w.tick()
+                leaked = [d for d in w.w.seen_from[CA][seen0:] if len(d) > 12 and d[12] != 1]
+                ctx.case(("refused-hello-history", gap, sig["by"]))
+                if bad or leaked:
+                    ctx.fail("client that refused a %s server hello, polled for %d ticks between further copies: %s%s"
+                             % ("foreign-signed" if sig["by"] == "A" else "garbled-signature", gap, "; ".join(bad[:3]),
+                                ("; %d datagram(s) other than the hello left the client" % len(leaked)) if leaked else ""), dict(gap=gap, sig=sig["by"], observations=bad[:6], leaked=len(leaked)))
+            finally:
+                w.close()
+
+
 def run(ctx):
     ctx.level = "model_checking"
     ctx.rule = ("one replayed model transition per (specification state, datagram) pair, executed on a fresh real client + server loop along the shortest path to that state; plus one row per byte-level "
@@ -554,3 +610,4 @@ def run(ctx):
     replay_model(ctx, 2, 400 if ctx.quick else 8000)
     sweep(ctx)
     sweep_server(ctx)
+    refused_hello_histories(ctx)
